@@ -61,8 +61,16 @@ pub fn run_client(ctx: &Ctx, proto: Proto, key: Option<(&[u8], KeyEnc)>, mode: M
     let sock = UdpSocket::bind("127.0.0.1:0").map_err(|e| e.to_string())?;
     crate::inproc::set_rcvbuf(std::os::unix::io::AsRawFd::as_raw_fd(&sock), 1 << 20);
     let port = sock.local_addr().unwrap().port();
-    let mut args: Vec<String> = vec!["127.0.0.1".into(), port.to_string(), "-p".into(), if proto == Proto::Classic { "0".into() } else { "13".into() }, "-z".into(), "-t".into(), "4".into(), "-n".into(), n.to_string()];
-    if !extra.contains(&"default-format") {
+    let mut args: Vec<String> = vec!["127.0.0.1".into(), port.to_string(), "-p".into(), if proto == Proto::Classic { "0".into() } else { "13".into() }, "-t".into(), "4".into(), "-n".into(), n.to_string()];
+    // "tz=<zone>": local-time rendering (no -z) in that zone; otherwise UTC with -z
+    let tz = extra.iter().find_map(|e| e.strip_prefix("tz="));
+    if tz.is_none() {
+        args.push("-z".into());
+    }
+    if extra.contains(&"wall") {
+        args.push("-f".into());
+        args.push("W=%Y-%m-%dT%H:%M:%S".into());
+    } else if !extra.contains(&"default-format") {
         args.push("-f".into());
         args.push("T=%s.%f".into());
     }
@@ -83,7 +91,7 @@ pub fn run_client(ctx: &Ctx, proto: Proto, key: Option<(&[u8], KeyEnc)>, mode: M
         Mode::Plain => {}
     }
     let mut cmd = crate::procs::wrapped("RTVERIF_WRAP_CLIENT", &ctx.bins.join("roughenough-client"));
-    cmd.args(&args).stdin(Stdio::null()).stdout(Stdio::piped()).stderr(Stdio::piped()).env("TZ", "UTC");
+    cmd.args(&args).stdin(Stdio::null()).stdout(Stdio::piped()).stderr(Stdio::piped()).env("TZ", tz.unwrap_or("UTC"));
     let mut child = cmd.spawn().map_err(|e| format!("spawn client: {}", e))?;
     let mut so = child.stdout.take().unwrap();
     let mut se = child.stderr.take().unwrap();
@@ -150,6 +158,8 @@ fn parse_times(stdout: &str, stderr: &str, mode: Mode) -> Vec<(String, Option<bo
             for l in stdout.lines() {
                 if let Some(t) = l.strip_prefix("T=") {
                     v.push((format!("T={}", t.trim()), None));
+                } else if l.starts_with("W=") {
+                    v.push((l.trim().to_string(), None));
                 } else if looks_like_default_time(l) {
                     v.push((l.trim().to_string(), None));
                 }
@@ -659,9 +669,13 @@ fn expected_time(proto: Proto, midp: u64) -> String {
 }
 
 fn civil(secs: u64) -> String {
+    civil_i(secs as i64)
+}
+
+fn civil_i(secs: i64) -> String {
     // days since epoch -> y/m/d (Howard Hinnant's algorithm)
-    let days = (secs / 86400) as i64;
-    let rem = secs % 86400;
+    let days = secs.div_euclid(86400);
+    let rem = secs.rem_euclid(86400);
     let z = days + 719468;
     let era = z.div_euclid(146097);
     let doe = z.rem_euclid(146097);
@@ -674,6 +688,17 @@ fn civil(secs: u64) -> String {
     let y = if m <= 2 { y + 1 } else { y };
     const MON: [&str; 12] = ["Jan", "Feb", "Mar", "Apr", "May", "Jun", "Jul", "Aug", "Sep", "Oct", "Nov", "Dec"];
     format!("{} {:02} {} {:02}:{:02}:{:02} UTC", MON[(m - 1) as usize], d, y, rem / 3600, rem % 3600 / 60, rem % 60)
+}
+
+fn civil_iso(secs: i64) -> String {
+    // "Jan 02 2024 03:04:05 UTC" -> "W=2024-01-02T03:04:05"
+    let c = civil_i(secs);
+    let p: Vec<&str> = c.split_whitespace().collect();
+    const MON: [&str; 12] = ["Jan", "Feb", "Mar", "Apr", "May", "Jun", "Jul", "Aug", "Sep", "Oct", "Nov", "Dec"];
+    let m = MON.iter().position(|x| *x == p[0]).unwrap() + 1;
+    // chrono's %Y gives years beyond 9999 an explicit sign
+    let year = if p[2].len() > 4 { format!("+{}", p[2]) } else { format!("{:0>4}", p[2]) };
+    format!("W={}-{:02}-{}T{}", year, m, p[1], p[3])
 }
 
 pub fn run_c03(ctx: &Ctx, out: &mut Out) {
@@ -703,6 +728,11 @@ pub fn run_c03(ctx: &Ctx, out: &mut Out) {
             _ => Mode::Verbose,
         };
         let default_format = mode == Mode::Plain && (gi / 18) % 4 == 0;
+        // a share of the runs render local time in a zone with a fixed offset (no -z): the instant
+        // printed must be the same instant
+        const ZONES: [(&str, i64); 3] = [("tz=Asia/Tokyo", 32_400), ("tz=America/Phoenix", -25_200), ("tz=Asia/Kolkata", 19_800)];
+        let zone: Option<(&str, i64)> = if !default_format && gi % 5 == 3 { Some(ZONES[((gi / 5) % 3) as usize]) } else { None };
+        let wall = zone.is_some() && mode == Mode::Plain;
         let n = if rng.chance(1, 5) { rng.range(2, 16) as usize } else { 1 };
         // index 0..63, depth 0..6
         let size = match (gi / 6) % 8 {
@@ -732,7 +762,14 @@ pub fn run_c03(ctx: &Ctx, out: &mut Out) {
         let mut rr = Rng::new(rng.next_u64());
         let mut ref_ok = true;
         let key = if enc == KeyEnc::None { None } else { Some((&pk[..], enc)) };
-        let extra: Vec<&str> = if default_format { vec!["default-format"] } else { vec![] };
+        let mut extra: Vec<&str> = if default_format { vec!["default-format"] } else { vec![] };
+        if let Some((z, _)) = zone {
+            extra.push(z);
+            out.obs("local_time_runs", 1);
+        }
+        if wall {
+            extra.push("wall");
+        }
         let res = run_client(ctx, proto, key, mode, n, &extra, &mut |cr| {
             let d = forger.honest(cr, &batches[cr.index], &mut rr).assemble();
             let view = ReqView { proto, packet: cr.packet, nonce: cr.nonce.clone() };
@@ -760,7 +797,8 @@ pub fn run_c03(ctx: &Ctx, out: &mut Out) {
         out.case(fnv64(format!("{:?}{:?}{:?}{}{}", proto, enc, mode, size, gi).as_bytes()), true);
         out.obs(&format!("honest_{}_key{:?}", proto.name(), enc), 1);
         out.obs(&format!("batch_depth_{}", (size as f64).log2().ceil() as u32), 1);
-        check_honest_run(out, &run, proto, enc != KeyEnc::None, &batches.iter().map(|b| b.midp).collect::<Vec<_>>(), default_format, "reference-responder");
+        let wall_off = if wall { zone.map(|z| z.1) } else { None };
+        check_honest_run(out, &run, proto, enc != KeyEnc::None, &batches.iter().map(|b| b.midp).collect::<Vec<_>>(), default_format, wall_off, if zone.is_some() { "reference-responder-localtime" } else { "reference-responder" });
         if out.samples.len() < 3 && t % 5 == 1 {
             out.sample(json!({"proto": proto.name(), "key": format!("{:?}", enc), "mode": format!("{:?}", mode), "batch_size": size, "index": batches[0].index, "midp": batches[0].midp, "printed": run.times.get(0).map(|t| t.0.clone()), "exit": run.exit}));
         }
@@ -775,11 +813,12 @@ pub fn run_c03(ctx: &Ctx, out: &mut Out) {
     out.floor("honest_ietf_keyHex", 20);
     out.floor("honest_ietf_keyB64", 20);
     out.floor("times_compared", 500);
+    out.floor("local_time_runs", 50);
     out.floor("real_server_client_runs", 8);
     out.floor("real_server_times_checked", 100);
 }
 
-fn check_honest_run(out: &mut Out, run: &ClientRun, proto: Proto, keyed: bool, midps: &[u64], default_format: bool, origin: &str) {
+fn check_honest_run(out: &mut Out, run: &ClientRun, proto: Proto, keyed: bool, midps: &[u64], default_format: bool, wall_off: Option<i64>, origin: &str) {
     let n = midps.len();
     let pj = |what: &str| trial_json(run, None, what, origin);
     if run.exit != Some(0) || run.times.len() != n {
@@ -804,7 +843,10 @@ fn check_honest_run(out: &mut Out, run: &ClientRun, proto: Proto, keyed: bool, m
     out.obs("honest_runs_accepted", 1);
     for (i, (t, ver)) in run.times.iter().enumerate() {
         out.obs("times_compared", 1);
-        let want = if default_format {
+        let want = if let Some(off) = wall_off {
+            let secs = if proto == Proto::Classic { midps[i] / 1_000_000 } else { midps[i] };
+            civil_iso(secs as i64 + off)
+        } else if default_format {
             let secs = if proto == Proto::Classic { midps[i] / 1_000_000 } else { midps[i] };
             civil(secs)
         } else {
